@@ -1,32 +1,25 @@
 #!/usr/bin/env python3
-"""Regenerates MANIFEST.json from the table below and validates it against the schema."""
+"""Regenerates MANIFEST.json from manifest.d/<id>.json (one file per claimed property:
+{text, note, technique, ref[, category]}) and validates it against the schema.  Properties
+without a file are listed under not_applicable (reason from manifest.d/NA.json if present)."""
 import json, os, sys
 V = os.path.dirname(os.path.dirname(os.path.abspath(__file__)))
 
-TB = ("Trusted: Lean 4.33 kernel + Mathlib v4.33; axioms propext/Classical.choice/Quot.sound only (audited per theorem on every run, no sorry/"
-      "native_decide/bv_decide); the statements in lean/BFL/Props (fingerprinted in statements.lock); the correspondence harness, generators and "
-      "tolerances (differential testing: exhaustive where stated, sampled elsewhere); g++/Eigen/libstdc++/libm/sanitizers; Lean compiler executing the model. ")
-
-CHECKS = {
- "C01": dict(
-   text="Machine-checked theorems about the executable model kfCorrect (information-form covariance and mean with all inverses defined, symmetry, PSD via Joseph form, P - P+ PSD, component independence) for all n, m, k, PD P_i, PD R, any H, y; tied to KFCorrection by running model (exact rationals) and implementation on the same generated inputs and comparing within a conditioning-scaled tolerance, plus the property's own predicates (posterior in information form computed independently, symmetry, exact-LDL PSD tests, prior unmodified, likelihood = N(y;Hm,S)) evaluated on the implementation's output.",
-   note=TB + "Modelled not verified: floating point (real/rational semantics); Eigen's inverse (contract InvOn certified exactly per call in the rational run); likelihood density compared numerically.",
-   technique="Lean 4 theorems over Mathlib Matrix (Woodbury, Joseph form) + exact-rational model/implementation correspondence", ref="8/C01"),
- "C02": dict(
-   text="Machine-checked theorems about the executable model kfPredict (mean F m (+u), covariance F P F^T + Q, symmetry, PSD for PSD P,Q incl. singular, component independence, additivity of the exogenous contribution) for all dimensions and component counts; tied to KFPrediction/LinearStateModel::propagate by exact-rational correspondence on generated inputs with and without an exogenous model, and by the property's predicates on the implementation output.",
-   note=TB + "Modelled not verified: floating point. Skip-flag combinations belong to C13.",
-   technique="Lean 4 theorems over Mathlib Matrix + exact-rational model/implementation correspondence", ref="8/C02"),
-}
-
 PENDING_REASON = "no check registered yet in this revision: model/theorems/harness for this property are still being built (DESIGN.md section 8); nothing is claimed for it"
+HOOK_COMMITS = ["2863da9"]
+
 
 def main():
     props = [json.loads(l)["id"] for l in open(os.path.join(V, "properties.jsonl"))]
-    checks = []
+    nap = os.path.join(V, "manifest.d", "NA.json")
+    na_reasons = json.load(open(nap)) if os.path.exists(nap) else {}
+    checks, na = [], []
     for pid in props:
-        if pid not in CHECKS:
+        f = os.path.join(V, "manifest.d", pid + ".json")
+        if not os.path.exists(f) or pid in na_reasons:
+            na.append({"property_id": pid, "reason": na_reasons.get(pid, PENDING_REASON)})
             continue
-        c = CHECKS[pid]
+        c = json.load(open(f))
         checks.append({
             "property_id": pid,
             "quick_cmd": "python3 check.py %s --tier quick" % pid,
@@ -38,7 +31,6 @@ def main():
             "level_note": c["note"],
             "technique": c["technique"],
         })
-    na = [{"property_id": p, "reason": CHECKS_NA.get(p, PENDING_REASON)} for p in props if p not in CHECKS]
     man = {
         "version": 1,
         "setup_cmd": "sh tools/setup.sh",
@@ -58,8 +50,6 @@ def main():
     except ImportError:
         print("MANIFEST.json written (jsonschema not importable here; validate with python3-vt)")
 
-CHECKS_NA = {}
-HOOK_COMMITS = ["2863da9"]
 
 if __name__ == "__main__":
     main()
